@@ -57,6 +57,11 @@ CHECKS = {
    note=TB + 'Partial by nature: text -> tree by PyYAML on arbitrary bytes, OS errors, the CLI and the C compiler are validated, not modelled. 26 known findings (genuine robustness defects of the unchanged front end: misplaced `required` lists in stage schemas, unguarded shapes before expansion, YAML loader exceptions, integral floats, ...), several repaired by fix: commits (duplicate schema key, static array length, member names, trace properties, non-mapping root).',
    technique='Coq proof (totality of the field type creation skeleton over regenerated schemas) + exhaustive single-fault enumeration on the implementation',
    ref='5.C10'),
+ 'C11': dict(
+   text='Coq theorems for ALL trees, file systems and directory lists on the model of the barectf 3 `_parse` pipeline up to (excluding) _create_config - inclusion (C12 models), alias expansion + inheritance + member normalisation, log level alias substitution, schema gate, `_normalize_props`: C11_effective_clean (the effective tree has no $include / $inherit / aliases / log level aliases / nulls / non-canonical spellings), C11_stage_id_on_clean (every stage is the identity on clean trees), C11_fixed_point, C11_no_inclusion_files_needed, C11_pre_create_same (the tree, byte order key and byte order handed to _create_config are the same from the original and from the effective document), C11_normalise_idempotent. Tie: real effective_configuration_file vs the Coq pipeline on generated documents (inclusions <= 4 levels, alias / inheritance chains, null resets, every spelling alias). Oracles on the real code, both dialects + repository corpus: effective(effective) byte-identical; the effective document loads and is clean; files generated from the original and from the effective document are byte-identical modulo the date.',
+   note=TB + 'Modelled, not verified: Front/Effective.v (hand-written, schema checks as necessary-condition gates annotated with their schema clause); _create_config is not modelled: "byte-identical generated files" is proved up to the input of _create_config and validated on the real code; barectf 2 input by oracle only (conversion is C18); uuid: auto excluded (documented).',
+   technique='Coq proof (stage-wise identity on clean trees => fixed point) + differential run vs effective_configuration_file + byte-identity oracles',
+   ref='5.C11'),
  'C12': dict(
    text='15 Coq theorems for ALL trees: the per-key patching table, key order, update = documented patch_spec on well-formed trees, totality, members merge as ordered map, null replaces, inclusion order/search order/cycle error, alias chains of any depth and alias cycle error, inheritance chain = fold of update. Tie: the REAL _update_node on generated tree pairs vs the Coq update (vm_compute), stage-level comparison of include / alias / inherit, end-to-end scenarios through effective_configuration_file; oracle = Python transcription of the documented table.',
    note=TB + 'Modelled: Front/Patch.v, Include.v, Alias.v, Inherit.v hand-written (file system abstract; realpath/symlinks not modelled); hypotheses: no duplicate keys (PyYAML), well-formed members lists; known findings: alias name merged instead of replacing under $inherit, YAML anchor sharing mutated by in-place update.',
